@@ -72,6 +72,7 @@ func (sc *scenario) fairEnv() {
 
 type roundInfo struct {
 	Outcome       string   `json:"outcome"`
+	Detail        string   `json:"detail"` // error text of the sync, truncated
 	DepWrites     int      `json:"depWrites"`     // accepted writes to children / ControllerRevisions
 	ChildWrites   int      `json:"childWrites"`   // accepted writes to children only
 	ContentWrites []string `json:"contentWrites"` // children created/deleted/changed in content (resource/name:verb)
@@ -85,6 +86,12 @@ type roundInfo struct {
 func (sc *scenario) info(line vs.M) roundInfo {
 	w := sc.w
 	ri := roundInfo{Outcome: line["result"].(vs.M)["outcome"].(string), Images: vs.M{}}
+	if d, ok := line["result"].(vs.M)["detail"].(string); ok {
+		if len(d) > 400 {
+			d = d[:400]
+		}
+		ri.Detail = d
+	}
 	calls := line["calls"].([]vs.LogEntry)
 	ri.Requests = len(calls)
 	for _, e := range calls {
@@ -160,6 +167,11 @@ func (sc *scenario) ownedAndDesiredObjs(lastLine vs.M) (owned, desired []string,
 	puid := objStr(p, "metadata", "uid")
 	for _, c := range sc.Cfg.Children {
 		for _, o := range w.sim.List(c.group(), c.Resource) {
+			// a namespaced parent can only own objects of its own namespace (owner references do not cross namespaces,
+			// and a cluster-scoped object cannot have a namespaced owner): look-alikes elsewhere are not "owned"
+			if sc.Cfg.ParentNamespaced && objStr(o, "metadata", "namespace") != nsOfKey(sc.key) {
+				continue
+			}
 			refs, _ := objMap(o, "metadata")["ownerReferences"].([]interface{})
 			for _, r := range refs {
 				if m, ok := r.(map[string]interface{}); ok && m["uid"] == puid && m["controller"] == true {
@@ -294,6 +306,7 @@ func runConverge(r *vs.Rand, i int, seed uint64, out *vs.Out) {
 	defer sc.w.close()
 	// is a desired name occupied by an object the parent cannot own? (excluded by the property)
 	foreign := false
+	var foreignKeys [][4]string
 	p := sc.w.sim.GetObj(parentGroup, cfg.parentResource(), nsOfKey(sc.key), "p1")
 	puid := objStr(p, "metadata", "uid")
 	deleting := objStr(p, "metadata", "deletionTimestamp") != ""
@@ -324,8 +337,16 @@ func runConverge(r *vs.Rand, i int, seed uint64, out *vs.Out) {
 			}
 			if (hasController && !mine) || !matches || objStr(o, "metadata", "namespace") == "ns2" || objStr(o, "metadata", "deletionTimestamp") != "" {
 				foreign = true
+				foreignKeys = append(foreignKeys, [4]string{c.group(), c.Resource, objStr(o, "metadata", "namespace"), objStr(o, "metadata", "name")})
 			}
 		}
+	}
+	// most scenarios are made admissible for the property by taking the foreign occupants away again
+	if foreign && r.Chance(70) {
+		for _, k := range foreignKeys {
+			sc.w.sim.Remove(k[0], k[1], k[2], k[3])
+		}
+		foreign = false
 	}
 	var rounds []roundInfo
 	var last vs.M
@@ -400,9 +421,25 @@ func runFaults(r *vs.Rand, i int, seed uint64, out *vs.Out) {
 		defer sc.w.close()
 		var rounds []roundInfo
 		if fault {
-			pos := r.Intn(10)
-			fk := faultKinds[r.Intn(len(faultKinds))]
-			sc.w.sim.FaultAt = map[int][2]string{pos: fk}
+			if r.Chance(30) {
+				// a persistent fault during the first sync: every request of one class fails (e.g. an outside writer
+				// that keeps winning the race, so that every retry of a read-modify-write conflicts)
+				classes := []vs.Fault{
+					{Verb: "update", Resource: cfg.parentResource(), Code: 409, Reason: "Conflict", Always: true},
+					{Verb: "updateStatus", Resource: cfg.parentResource(), Code: 409, Reason: "Conflict", Always: true},
+					{Verb: "update", Code: 409, Reason: "Conflict", Always: true},
+					{Verb: "delete", Code: 409, Reason: "Conflict", Always: true},
+					{Verb: "create", Code: 500, Reason: "InternalError", Always: true},
+					{Verb: "get", Resource: cfg.parentResource(), Code: 500, Reason: "InternalError", Always: true},
+					{Verb: "delete", Code: 500, Reason: "InternalError", Always: true},
+				}
+				f := classes[r.Intn(len(classes))]
+				sc.w.sim.Faults = []*vs.Fault{&f}
+			} else {
+				pos := r.Intn(10)
+				fk := faultKinds[r.Intn(len(faultKinds))]
+				sc.w.sim.FaultAt = map[int][2]string{pos: fk}
+			}
 		}
 		for k := 0; k < 9; k++ {
 			var ri roundInfo
@@ -416,6 +453,7 @@ func runFaults(r *vs.Rand, i int, seed uint64, out *vs.Out) {
 				ri = sc.info(line)
 			}
 			sc.w.sim.FaultAt = nil
+			sc.w.sim.Faults = nil
 			rounds = append(rounds, ri)
 		}
 		return rounds, project(sc.w.sim.Snapshot())
@@ -522,7 +560,23 @@ func runInterleave(r *vs.Rand, i int, seed uint64, out *vs.Out) {
 			return
 		}
 		k := kids[r.Intn(len(kids))]
-		switch r.Intn(6) {
+		switch r.Intn(8) {
+		case 6: // another (non-controller) owner reference is added by someone else
+			s.Mutate(k.c.group(), k.c.Resource, k.ns, k.name, func(o map[string]interface{}) {
+				md := o["metadata"].(map[string]interface{})
+				refs, _ := md["ownerReferences"].([]interface{})
+				md["ownerReferences"] = append(refs, vs.M{"apiVersion": "v1", "kind": "ConfigMap", "name": "extra-owner", "uid": "uid-extra-owner"})
+			})
+		case 7: // a label is added by someone else (selector match unchanged)
+			s.Mutate(k.c.group(), k.c.Resource, k.ns, k.name, func(o map[string]interface{}) {
+				md := o["metadata"].(map[string]interface{})
+				lbl, _ := md["labels"].(map[string]interface{})
+				if lbl == nil {
+					lbl = map[string]interface{}{}
+				}
+				lbl["touched"] = "yes"
+				md["labels"] = lbl
+			})
 		case 0: // deleted by someone else
 			s.Remove(k.c.group(), k.c.Resource, k.ns, k.name)
 		case 1: // deleted and recreated under the same name (new UID), owned by nobody
